@@ -90,16 +90,34 @@ type G struct {
 	inKey   bool
 }
 
-func (g *G) pick(label string, n int) int {
+var uniformIdx = func() []int {
+	s := make([]int, 4096)
+	for i := range s {
+		s[i] = i
+	}
+	return s
+}()
+
+// Uniform draws an index in [0, n) uniformly. (rapid.IntRange is heavily
+// biased towards small values — about 40 % of IntRange(0,99) draws are below
+// 10 — which would skew every choice of the generators towards alternative 0;
+// SampledFrom is uniform and still shrinks towards index 0.)
+func Uniform(t *rapid.T, label string, n int) int {
 	if n <= 1 {
 		return 0
 	}
-	return rapid.IntRange(0, n-1).Draw(g.t, label)
+	if n > len(uniformIdx) {
+		return rapid.IntRange(0, n-1).Draw(t, label)
+	}
+	return rapid.SampledFrom(uniformIdx[:n]).Draw(t, label)
 }
 
-func (g *G) chance(label string, pct int) bool {
-	return rapid.IntRange(0, 99).Draw(g.t, label) < pct
-}
+// Chance is true with probability pct/100.
+func Chance(t *rapid.T, label string, pct int) bool { return Uniform(t, label, 100) < pct }
+
+func (g *G) pick(label string, n int) int { return Uniform(g.t, label, n) }
+
+func (g *G) chance(label string, pct int) bool { return Chance(g.t, label, pct) }
 
 func (g *G) label(l string) {
 	if g.fn != nil {
